@@ -606,9 +606,12 @@ class Interpreter:
                     break
                 last_before_lca = state
 
-            # Take all the descendants of this state and list the ones that are active
-            # Mind the reversed order!
-            for descendant in self._statechart.descendants_for(last_before_lca)[::-1]:
+            # Take all the descendants of this state and list the ones that are active, deepest
+            # first. Ties are broken using the lexicographic order on the state names, so that
+            # the order does not depend on the order in which the states were declared.
+            descendants = self._statechart.descendants_for(last_before_lca)
+            for descendant in sorted(
+                    descendants, key=lambda s: (-self._statechart.depth_for(s), s)):
                 # Only leave states that are currently active
                 if descendant in self._configuration:
                     exited_states.append(descendant)
